@@ -63,6 +63,13 @@ def programs():
     out["if-both-empty"] = pre + [("if", "c", [], []), R(".db 3")] + post
     out["if-empty-then-in-macro-in-loop"] = pre + [("macrodef", "mm", ["x"], [("if", "x", [], [R(".db 0xAA")]), R(".db x")]), ("for", "i", "0", "b2", [("call", "mm", [("expr", "i")])])] + post
     out["for-in-if"] = pre + [("if", "c", [("for", "i", "0", "b2", [R(".db i")])], [R(".db 7")])] + post
+    # condition / bound names defined two or more scopes up, with symbol-less scopes in between
+    out["if-two-blocks-deep"] = pre + [("block", [("block", [("if", "c", [R(".db 1, v")], [R(".dw 2")])])])] + post
+    out["for-two-blocks-deep"] = pre + [("block", [("block", [("for", "i", "0", "b2", [R(".db i")])])])] + post
+    out["if-in-paramless-macro-in-block"] = pre + [("macrodef", "pm", [], [("if", "c", [R(".db 1")], [R(".db 2")]), ("for", "i", "0", "b2", [R(".db i")])]), ("block", [("call", "pm", [])]), ("scope", "ns", [("block", [("call", "pm", [])])])] + post
+    out["if-in-empty-named-scopes"] = pre + [("scope", "na", [("scope", "nb", [("if", "c - d", [R(".db 1")], [R(".db 2")]), ("for", "i", "a", "b", [R(".db i")])])])] + post
+    out["if-in-loop-in-empty-block"] = pre + [R("kk := 1"), ("block", [("block", [("for", "i", "0", "2", [("block", [("if", "kk", [R(".db 1")], [R(".db 2")]), ("if", "c", [R(".db 3")], None)])])])])] + post
+    out["else-definitions-visible-after"] = pre + [("if", "c", [R("x = 1"), R("la:"), R(".db 1")], [R("x = 2"), R(".db 9"), R("la:"), R(".db 2")]), R(".dl la"), R(".db x"), ("block", [R(".dl la"), R(".db x")])] + post
     out["for-empty-then-code"] = pre + [("for", "i", "3", "b2", [R(".db i")]), R(".db 0x55")] + post
     return out
 
